@@ -2,9 +2,17 @@
 import plugincheck
 
 THEOREMS = ["release_only_when_licensed", "never_kept", "immutable_kept_sts", "default_released_by_event", "resync_item_exact",
-            "resync_pass_exact", "resync_pass_no_orphans", "prefix_reserve_survives_resync"]
-REFUTED = ["dp_reserve_leak_refuted"]
+            "resync_pass_exact", "resync_pass_no_orphans", "prefix_reserve_survives_resync",
+            "keyuid_invariant", "keyuid_preserved", "resync_keeps_alive_pod", "event_keeps_alive_pod", "queued_event_keeps_alive_pod",
+            "alive_pod_keeps_ip"]
+REFUTED = ["dp_reserve_leak_refuted", "alive_pod_keeps_ip_refuted_old"]
 KNOWN_FINDINGS = [
+    {"id": "F18", "status": "fixed", "commit": "58ad117", "tag": "c03-mixed-uid-key",
+     "what": "fixed: property=C03 58ad117 the pod-IP sync gave the annotated IP of the (stale) object it was handed back to the pod's key "
+             "although the key already held an IP stored for another UID - a new deployment pod of the same name that was handed a "
+             "reserved IP at Filter time; the next resync item for the old IP released the alive pod's IP too (witness "
+             "alive_pod_keeps_ip_refuted_old, found as a counterexample by the prover asked to prove resync_keeps_alive_pod; "
+             "scenario F18-mixed-uid-key)"},
     {"id": "K1", "status": "open", "tag": plugincheck.K1_TAG,
      "what": "an immutable deployment's IP parked under the app prefix key (dp_<ns>_<app>_) is never released once the deployment "
              "is deleted (or scaled below the number of parked IPs): resync skips keys without a pod name, so the reserve leaks "
